@@ -55,4 +55,15 @@ def podFlip (s : State) (id : Nat) : State :=
           else s.quotas
         pods := setPod s.pods id fun x => { x with np := !x.np } }
 
+/-- `OnPodUpdate(newQuota, oldQuota, new, old)` with `oldQuota ≠ newQuota` (ninth round): the pod's QUOTA LABEL changed
+    (`label := l`), possibly together with the binding (`bound` = the NEW object carries a node name).  Different-quota
+    branch of `GroupQuotaManager.OnPodUpdate`: the old group, if it holds the pod, gives back used (if assigned there),
+    request and `PodInfo` (= `podDelete`); the new group, which does not hold the pod, files it (`podAdd`) and marks it
+    assigned + books used iff the NEW OBJECT is bound (`spec.nodeName ≠ ""`, = `podAddBound`) - whatever the old group
+    held.  A pod no group holds (its group was deleted and re-created under it) skips the first half. -/
+def podRelabel (s : State) (id l : Nat) (bound : Bool) : State :=
+  let s1 := podDelete s id
+  let s2 : State := { s1 with pods := setPod s1.pods id fun x => { x with label := l } }
+  if bound then podAddBound s2 id else podAdd s2 id
+
 end KoordVerif.C03
